@@ -679,8 +679,10 @@ Proof.
   destruct (s2e_quiet i files (rec0 i t0) Q) as [Hrun Htbl].
   rewrite s2e_run_app, s2e_tbl_app, Hrun, Htbl. cbn [map s2e_run s2e_tbl app].
   rewrite s2e_final_step. cbn [fst snd]. rewrite app_nil_r.
-  rewrite <- (fold_left_app (upd parse_opt) files [_]).
-  rewrite fold_block by (subst files; [apply files_no_tags | apply (quiet_tags i); exact Q]).
+  change (upd parse_opt (fold_left (upd parse_opt) files (rec0 i t0)) ?e)
+    with (fold_left (upd parse_opt) [e] (fold_left (upd parse_opt) files (rec0 i t0))).
+  rewrite <- fold_left_app.
+  rewrite fold_block; [| subst files; apply files_no_tags | apply (quiet_tags i); exact Q].
   subst files. cbn [rec0 r_id r_details r_first]. rewrite (outcome_details i (now_ts s) k ds r W).
   split; reflexivity.
 Qed.
@@ -706,4 +708,170 @@ Proof.
   intro H. apply forall2b_map. intros d Hd. rewrite forallb_forall in H. specialize (H d Hd).
   unfold afile_of, match_mid. cbn [af_id af_route af_name af_ct af_bytes af_closed af_ts canon_mime option_map option_eqb].
   rewrite !Nat.eqb_refl, String.eqb_refl. destruct (mime_roundtrip_same _ H) as [_ ->]. reflexivity.
+Qed.
+
+(* ================= the invariant along a well-formed history ================= *)
+(* phase of the history / converter state / receiver's in-progress table / the specification's reading *)
+Inductive R : phase -> e2s -> list (key * crcd) -> sstate -> Prop :=
+| R_not : R PNot e2s0 [] ss0
+| R_idle rt rt' nw st : same_set rt rt' -> R PIdle (E2S true [rt] nw) [] (SS true rt' None nw st)
+| R_in i tt rt tt' rt' nw t0 : same_set tt tt' -> same_set rt rt' ->
+    R (PIn i) (E2S true [tt; rt] nw) [((i, None), rec0 i t0)] (SS true rt' (Some tt') nw t0)
+| R_done i tt rt tt' rt' nw st : same_set tt tt' -> same_set rt rt' ->
+    R (PDone i) (E2S true [tt; rt] nw) [] (SS true rt' (Some tt') nw st)
+| R_stopped s ss : R PStopped s [] ss.
+
+Lemma status_eqb_refl s : status_eqb s s = true.
+Proof. destruct s; reflexivity. Qed.
+Lemma outcome_eqb_refl s : outcome_eqb s s = true.
+Proof. destruct s; reflexivity. Qed.
+
+Lemma outcome_wf_cts k ds r : outcome_wf k ds r = true -> forallb (fun d => wf_ct (d_ct d)) (some_list ds) = true.
+Proof.
+  unfold outcome_wf. rewrite !andb_true_iff. intros [_ H]. destruct ds as [l|]; [|reflexivity].
+  apply andb_true_iff in H as [_ H]. exact H.
+Qed.
+
+Lemma outcome_mid_ok i k ds r tt tt' rt nw Y XM : outcome_wf k ds r = true -> same_set tt tt' ->
+  let s := E2S true [tt; rt] nw in
+  let t1 := match nw with Some t => t | None => wall end in
+  forall2b match_mid XM (group Y) = true ->
+  forall2b match_mid
+    ((map (fun d => XFile i (d_name d) (d_ct d) (sjoin (d_chunks d)) t1) (some_list ds)
+      ++ (match r with Some b => [XFile i reason_name reason_ct b t1] | None => [] end)
+      ++ [XStatus i (final_word k) (Some tt') t1]) ++ XM)
+    (group (convert s k i ds r ++ Y)) = true.
+Proof.
+  intros W Ht s t1 H. rewrite outcome_grouped. rewrite <- !app_assoc.
+  apply forall2b_app; [apply match_files; exact (outcome_wf_cts k ds r W)|].
+  apply forall2b_app.
+  - destruct r as [b|]; [|reflexivity]. cbn [forall2b match_mid af_id af_route af_name af_ct af_bytes af_closed af_ts
+      canon_mime option_map option_eqb now_ts now s].
+    rewrite !Nat.eqb_refl, String.eqb_refl, reason_ct_same. reflexivity.
+  - cbn [app forall2b]. rewrite H, andb_true_r. unfold match_mid, canon_ev, status_e.
+    cbn [e_id e_route e_status e_tags e_fname e_ts option_eqb current_tags tagstack s now_ts now].
+    rewrite !Nat.eqb_refl, status_eqb_refl, (set_eqb_same _ _ Ht). reflexivity.
+Qed.
+
+Lemma outcome_fin_ok i k ds r tt tt' rt nw t0 : outcome_wf k ds r = true -> same_set tt tt' ->
+  let s := E2S true [tt; rt] nw in
+  let t1 := match nw with Some t => t | None => wall end in
+  forall2b match_fin
+    [YTime t0; YStartTest i; YTime t1;
+     YOutcome (replayed k) i tt' (nonempty_details (some_list ds) ++ reason_detail r); YStopTest i]
+    (norm_log (s2e_run [((i, None), rec0 i t0)] (convert s k i ds r))) = true.
+Proof.
+  intros W Ht s t1. subst s t1. destruct (outcome_received i k ds r tt rt nw t0 W) as [-> _].
+  unfold replay. cbn [r_status r_first r_last r_tags r_id r_details]. rewrite outcome_of_final_word.
+  cbn [opt_time app norm_log strip filter is_tags negb map norm_lev forall2b match_fin].
+  rewrite !Nat.eqb_refl, outcome_eqb_refl, (set_eqb_same _ _ (same_set_sym _ _ Ht)). cbn [andb].
+  rewrite andb_true_r. rewrite norm_details_app.
+  apply forall2b_app; [apply match_model_details; exact (outcome_wf_cts k ds r W)|].
+  destruct r as [b|]; [apply match_model_reason | reflexivity].
+Qed.
+
+Lemma op_step p o q s tbl ss : R p s tbl ss -> wf_step p o = Some q ->
+  (forall Y XM, forall2b match_mid XM (group Y) = true ->
+                forall2b match_mid (fst (snd (sstep ss o)) ++ XM) (group (snd (e2s_step s o) ++ Y)) = true)
+  /\ forall2b match_fin (snd (snd (sstep ss o))) (norm_log (s2e_run tbl (snd (e2s_step s o)))) = true
+  /\ R q (fst (e2s_step s o)) (s2e_tbl tbl (snd (e2s_step s o))) (fst (sstep ss o)).
+Proof.
+  intros HR Hw. destruct HR as [ | rt rt' nw st Hrt | i tt rt tt' rt' nw t0 Htt Hrt | i tt rt tt' rt' nw st Htt Hrt | s ss];
+    destruct o as [ | | t | n g | j | j | k j ds r]; cbn [wf_step] in Hw; try discriminate Hw.
+  - (* PNot, startTestRun *)
+    inversion Hw; subst q. repeat split.
+    + intros Y XM H. cbn. exact H.
+    + constructor. apply same_set_refl.
+  - (* PNot, startTest: the run starts itself *)
+    inversion Hw; subst q. repeat split.
+    + intros Y XM H. cbn. rewrite Nat.eqb_refl. exact H.
+    + cbn [e2s_step ensure_started started e2s0 start_run fst snd app s2e_tbl]. cbn [s2e_step fst].
+      unfold status_ev, now_ts. cbn [now]. fold (status_e j Inprogress None (Some wall)). rewrite s2e_start_step.
+      cbn [fst s2e_tbl]. constructor; apply same_set_refl.
+  - (* PIdle, stopTestRun *)
+    inversion Hw; subst q. repeat split.
+    + intros Y XM H. cbn. exact H.
+    + constructor.
+  - (* PIdle, time *)
+    inversion Hw; subst q. repeat split.
+    + intros Y XM H. cbn. exact H.
+    + constructor. exact Hrt.
+  - (* PIdle, tags *)
+    inversion Hw; subst q. repeat split.
+    + intros Y XM H. cbn. exact H.
+    + constructor. apply same_set_change. exact Hrt.
+  - (* PIdle, startTest *)
+    inversion Hw; subst q. repeat split.
+    + intros Y XM H. cbn [sstep e2s_step ensure_started started fst snd app ss_started].
+      unfold status_ev. cbn [group pure_file e_fname e_status e_tags app forall2b]. rewrite H, andb_true_r.
+      unfold match_mid, canon_ev, now_ts, ss_ts. cbn. rewrite Nat.eqb_refl. destruct nw; cbn; rewrite ?Nat.eqb_refl; reflexivity.
+    + cbn [e2s_step ensure_started started fst snd app s2e_tbl].
+      unfold status_ev, now_ts. cbn [now].
+      fold (status_e j Inprogress None (Some (match nw with Some t => t | None => wall end))). rewrite s2e_start_step.
+      cbn [fst s2e_tbl sstep ss_started ss_run_tags ss_now ss_ts current_tags tagstack]. constructor; exact Hrt.
+  - (* PIn, time *)
+    inversion Hw; subst q. repeat split.
+    + intros Y XM H. cbn. exact H.
+    + constructor; assumption.
+  - (* PIn, tags *)
+    inversion Hw; subst q. repeat split.
+    + intros Y XM H. cbn. exact H.
+    + constructor; [apply same_set_change|]; assumption.
+  - (* PIn, the outcome *)
+    destruct (Nat.eqb i j) eqn:Eij; [|discriminate Hw]. destruct (outcome_wf k ds r) eqn:W; [|discriminate Hw].
+    cbn [andb] in Hw. inversion Hw; subst q. apply Nat.eqb_eq in Eij. subst j.
+    cbn [e2s_step ensure_started started fst snd app sstep ss_ts ss_now ss_current ss_test_tags ss_start].
+    split; [|split].
+    + intros Y XM H. apply (outcome_mid_ok i k ds r tt tt' rt nw Y XM W Htt H).
+    + apply (outcome_fin_ok i k ds r tt tt' rt nw t0 W Htt).
+    + destruct (outcome_received i k ds r tt rt nw t0 W) as [_ ->]. constructor; assumption.
+  - (* PDone, time *)
+    inversion Hw; subst q. repeat split.
+    + intros Y XM H. cbn. exact H.
+    + constructor; assumption.
+  - (* PDone, tags *)
+    inversion Hw; subst q. repeat split.
+    + intros Y XM H. cbn. exact H.
+    + constructor; [apply same_set_change|]; assumption.
+  - (* PDone, stopTest *)
+    destruct (Nat.eqb i j); [|discriminate Hw]. inversion Hw; subst q. repeat split.
+    + intros Y XM H. cbn. exact H.
+    + constructor. exact Hrt.
+Qed.
+
+Theorem history_ok : forall h p s tbl ss, R p s tbl ss -> wf_from p h = true ->
+  forall2b match_mid (fst (expected ss h)) (group (e2s_run s h)) = true
+  /\ forall2b match_fin (snd (expected ss h)) (norm_log (s2e_run tbl (e2s_run s h))) = true.
+Proof.
+  induction h as [|o h IH]; intros p s tbl ss HR Hw; [split; reflexivity|].
+  cbn [wf_from] in Hw. destruct (wf_step p o) as [q|] eqn:Eq; [|discriminate Hw].
+  destruct (op_step p o q s tbl ss HR Eq) as [Hmid [Hfin HR']].
+  destruct (IH q _ _ _ HR' Hw) as [IHmid IHfin].
+  cbn [expected e2s_run fst snd]. split.
+  - apply Hmid. exact IHmid.
+  - rewrite s2e_run_app, norm_log_app. apply forall2b_app; [exact Hfin | exact IHfin].
+Qed.
+
+Theorem model_meets_spec : forall i, wf i = true -> spec_okb i (model i) = true.
+Proof.
+  intros i W. unfold spec_okb. rewrite W. unfold alpha, model. cbn [o_mid o_fin a_mid a_fin].
+  unfold final_log, mid_stream. destruct (history_ok (hist i) PNot e2s0 [] ss0 R_not W) as [-> ->]. reflexivity.
+Qed.
+
+Theorem spec_okb_sound : forall i o, spec_okb i o = true -> Spec i o.
+Proof.
+  intros i o H W. unfold spec_okb in H. rewrite W in H. apply andb_true_iff in H as [H1 H2].
+  split; apply forall2b_Forall2; assumption.
+Qed.
+
+(* the two clauses of the statement separately, for every well-formed history *)
+Theorem stream_wf : forall h, wf_from PNot h = true ->
+  Forall2 (fun x a => match_mid x a = true) (fst (expected ss0 h)) (group (mid_stream h)).
+Proof.
+  intros h W. apply forall2b_Forall2. exact (proj1 (history_ok h PNot e2s0 [] ss0 R_not W)).
+Qed.
+Theorem roundtrip : forall h, wf_from PNot h = true ->
+  Forall2 (fun y l => match_fin y l = true) (snd (expected ss0 h)) (norm_log (final_log h)).
+Proof.
+  intros h W. apply forall2b_Forall2. exact (proj2 (history_ok h PNot e2s0 [] ss0 R_not W)).
 Qed.
